@@ -337,9 +337,16 @@ impl Point {
     }
 }
 
+thread_local! {
+    /// how often `<Point as FromStr>::from_str` ran on this thread (a parser need not be pure or cheap:
+    /// code that parses on the user's behalf runs it once per call)
+    pub static POINT_PARSE_CALLS: std::cell::Cell<u32> = const { std::cell::Cell::new(0) };
+}
+
 impl std::str::FromStr for Point {
     type Err = PointParseError;
     fn from_str(s: &str) -> Result<Self, Self::Err> {
+        POINT_PARSE_CALLS.with(|c| c.set(c.get() + 1));
         let (a, b) = s.split_once(';').ok_or_else(|| PointParseError("no ';'".into()))?;
         let x = a.parse::<i16>().map_err(|e| PointParseError(format!("x: {e:?}")))?;
         let y = b.parse::<i16>().map_err(|e| PointParseError(format!("y: {e:?}")))?;
@@ -395,6 +402,11 @@ pub trait InnerTy:
         None
     }
     fn parse_(s: &str) -> Option<Result<Self, String>>;
+    /// number of runs of the inner type's `FromStr` on this thread since the last reset (None = not counted)
+    fn parse_calls_() -> Option<u32> {
+        None
+    }
+    fn parse_calls_reset_() {}
     fn inner_eq(&self, o: &Self) -> bool;
     fn inner_partial_cmp(&self, o: &Self) -> Option<Option<Ordering>>;
 }
@@ -666,6 +678,12 @@ impl InnerTy for Point {
     }
     fn parse_(s: &str) -> Option<Result<Self, String>> {
         Some(s.parse::<Point>().map_err(|e| format!("{e:?}")))
+    }
+    fn parse_calls_() -> Option<u32> {
+        Some(POINT_PARSE_CALLS.with(|c| c.get()))
+    }
+    fn parse_calls_reset_() {
+        POINT_PARSE_CALLS.with(|c| c.set(0));
     }
     fn inner_eq(&self, o: &Self) -> bool {
         self == o
